@@ -239,7 +239,7 @@ func mutantsMain(catalogueDir, repo, property string) int {
 	var only map[string]bool
 	if property != "" && property != "all" {
 		only = map[string]bool{}
-		for _, r := range propertyRules[property] {
+		for _, r := range rulesOf(property) {
 			only[r] = true
 		}
 	}
